@@ -1,18 +1,19 @@
 SPECIFICATION Spec
 CONSTANTS
-  Threads <- MC_Threads
+  Threads <- MC_ThreadsLeft
   AgentPids <- MC_AgentPids
   Ips = {"A", "B"}
-  Ports = {"p", "q"}
-  Protos = {"tcp", "udp"}
+  Ports = {"p"}
+  Protos = {"tcp"}
   TCP = "tcp"
   Listable <- MC_Listable
-  SPorts = {1, 2, 3}
+  SPorts = {s1, s2, s3}
   Proxy <- MC_Proxy
   K = 2
   Bounded = TRUE
   AllowDirect = TRUE
   AllowAbort = FALSE
-  MaxLeft = 0
+  MaxLeft = 1
+SYMMETRY SymSPorts
 INVARIANTS RedirectExactly RecordTruth NoRecordOtherwise AgentUntouched NoStaleLocal WithinCapacity
 CHECK_DEADLOCK TRUE
